@@ -32,6 +32,9 @@ type C16Case struct {
 	LenCut    *float64 `json:"len_cutoff,omitempty"`   // nil = the phaser's default
 	MatchCut  *float64 `json:"match_cutoff,omitempty"` // nil = the phaser's default
 	Scores    bool     `json:"scores,omitempty"`       // explicit match / mismatch / gap scores instead of the substitution matrix
+	ExtraRefs []string `json:"extra_refs,omitempty"`   // further reference ORFs given with the ORF
+	RefAt     int      `json:"ref_at,omitempty"`       // rank of the ORF among the references
+	RefsAlike bool     `json:"refs_alike,omitempty"`   // the further references are variants of the ORF (no claim about which one a sequence matches best)
 	Choices   []int    `json:"choices"`
 }
 
@@ -92,6 +95,32 @@ func (c16) Gen(rs uint64, tier string, race bool) interface{} {
 		c.MatchCut = &v
 	}
 	c.Scores = r.Chance(0.15)
+	if c.GiveRef && r.Chance(0.4) {
+		// "reference ORFs": further references beside the ORF. Either short unrelated ones (at most a third of the
+		// ORF's length: whatever the scores, none can beat the ORF's exact copy) or variants of the ORF.
+		c.RefsAlike = r.Chance(0.3)
+		ncod := (len(c.Orf) - 6) / 3
+		for n := r.Range(1, 3); n > 0; n-- {
+			var e strings.Builder
+			e.WriteString("ATG")
+			if c.RefsAlike {
+				b := []byte(c.Orf[3 : len(c.Orf)-3])
+				for k := range b {
+					if r.Chance(0.1) {
+						b[k] = ntCore[r.Intn(4)]
+					}
+				}
+				e.Write(b)
+			} else {
+				for k := r.Range(1, max(1, ncod/3-1)); k > 0; k-- {
+					e.WriteString(c16Codons[r.Intn(len(c16Codons))])
+				}
+			}
+			e.WriteString("TAA")
+			c.ExtraRefs = append(c.ExtraRefs, e.String())
+		}
+		c.RefAt = r.Intn(len(c.ExtraRefs) + 1)
+	}
 	ns := r.Range(1, 12)
 	if r.Chance(0.08) {
 		ns = r.Range(52, 70) // more than both 50-slot channels hold
@@ -200,9 +229,28 @@ func (c *C16Case) bags() (orfs, seqs align.SeqBag, names []string, all []string)
 	}
 	if c.GiveRef {
 		orfs = align.NewSeqBag(align.NUCLEOTIDS)
+		at := min(max(c.RefAt, 0), len(c.ExtraRefs))
+		for i, e := range c.ExtraRefs[:at] {
+			orfs.AddSequence(fmt.Sprintf("ref%d", i), e, "")
+		}
 		orfs.AddSequence("orf", c.Orf, "")
+		for i, e := range c.ExtraRefs[at:] {
+			orfs.AddSequence(fmt.Sprintf("ref%d", at+i), e, "")
+		}
 	}
 	return
+}
+
+// refsShort: every further reference is at most a third of the ORF in length (computed here, so that it stays
+// true under shrinking): an exact copy of the ORF then outscores anything a further reference can reach, with
+// the substitution matrices (diagonal 4..11 for amino acids) as with explicit match scores.
+func (c *C16Case) refsShort() bool {
+	for _, e := range c.ExtraRefs {
+		if (len(e)-3)*3 > len(c.Orf)-3 {
+			return false
+		}
+	}
+	return true
 }
 
 func seqStr(s align.Sequence) string {
@@ -528,7 +576,7 @@ func (c16) Run(ctx *Ctx, ci interface{}) (o Outcome) {
 		}
 		// a verbatim copy of the given ORF on one strand only (computed here, so that it stays true under shrinking):
 		// trimmed exactly at the ORF start of that strand, codons in frame from the first base, protein = the ORF's
-		if c.GiveRef && !r.Removed && len(c.Orf) >= 6 {
+		if c.GiveRef && !r.Removed && len(c.Orf) >= 6 && c.refsShort() {
 			fw, rv := strings.Count(in, c.Orf), 0
 			rc := ""
 			if c.Reverse {
@@ -559,7 +607,7 @@ func (c16) Run(ctx *Ctx, ci interface{}) (o Outcome) {
 				}
 			}
 		}
-		if idx >= 0 && c.Verbatim[idx] >= 0 && c.GiveRef && !r.Removed {
+		if idx >= 0 && c.Verbatim[idx] >= 0 && c.GiveRef && !r.Removed && c.refsShort() {
 			o.Add("verbatim_copy_checked", 1)
 			if r.Pos != c.Verbatim[idx] || !strings.HasPrefix(r.Nt, c.Orf[:3]) {
 				o.Fail("framing:verbatim-not-at-orf-start:Phase", "%s contains the reference ORF verbatim once at %d but was trimmed at %d (translate=%v reverse=%v)", r.Name, c.Verbatim[idx], r.Pos, c.Translate, c.Reverse)
@@ -632,6 +680,17 @@ func (c16) Shrink(ci interface{}) []interface{} {
 		if k < c.Cpus {
 			add(func(n *C16Case) bool { n.Cpus = k; n.Choices = []int{}; return true })
 		}
+	}
+	for i := range c.ExtraRefs {
+		i := i
+		add(func(n *C16Case) bool {
+			n.ExtraRefs = append(append([]string{}, n.ExtraRefs[:i]...), n.ExtraRefs[i+1:]...)
+			if n.RefAt > i {
+				n.RefAt--
+			}
+			n.Choices = []int{}
+			return true
+		})
 	}
 	if len(c.Seqs) > 1 {
 		// drop halves, then single sequences
